@@ -289,6 +289,18 @@ class C06(Check):
     def run_case(self, case):
         import xmlschema
         e = self.entries[case['entry']]
+        if hasattr(e.family, 'peer_pages'):
+            # the cases of a run group share one process: a schema that loads namespaces on demand keeps them (C10's
+            # listed finding), so every case of such a family works on a copy of the pristine schema
+            import copy
+            import pickle
+            if not hasattr(self, '_pristine'):
+                self._pristine = {}
+            blob = self._pristine.get(case['entry'])
+            if blob is None:
+                blob = self._pristine[case['entry']] = pickle.dumps(e.schema)
+            e = copy.copy(e)
+            e.schema = pickle.loads(blob)
         doc = e.docs[case['doc']]
         data = doc.data
         op = dict(case['op'])
